@@ -83,6 +83,8 @@ class Component(PrintObject):
         self.assertTrue(isinstance(seq, AnonymousSequence), "In super-sequence %s, sequence %s has not been defined yet." % (name, seq.name))
         self.seqs[seq.name] = seq
         self.base_seqs[seq.name] = seq
+      else:
+        self.assertTrue(self.seqs[seq.name] is seq, "In super-sequence %s, the name %s of an anonymous sequence is already in use." % (name, seq.name))
   
   def add_strand(self, dummy, name, const, length):
     if DEBUG: print("%s: strand %s" % (self.name, name))
@@ -101,6 +103,8 @@ class Component(PrintObject):
         self.assertTrue(isinstance(seq, AnonymousSequence), "In strand %s, sequence %s has not been defined yet." % (name, seq.name))
         self.seqs[seq.name] = seq
         self.base_seqs[seq.name] = seq
+      else:
+        self.assertTrue(self.seqs[seq.name] is seq, "In strand %s, the name %s of an anonymous sequence is already in use." % (name, seq.name))
     for seq in strand.base_seqs:
       if seq.reversed:
         seq.wc.in_strand = True
